@@ -136,6 +136,7 @@ class Enumerator:
         self.inline = inline and prog is not None and cls is not None
         self._n = 0
         self._depth = 0
+        self.fnode = None
 
     # ---- inlining of helper methods that are not rule anchors (introduced by later clean-ups)
     def _helper(self, call):
@@ -185,11 +186,14 @@ class Enumerator:
         for b in body:
             ast.fix_missing_locations(b)
         self._depth += 1
+        saved_fnode = self.fnode
         try:
             saved_cls = self.cls
+            self.fnode = ast.Module(body=body, type_ignores=[])
             paths = self.block(body)
         finally:
             self._depth -= 1
+            self.fnode = saved_fnode
         out = []
         none = ast.copy_location(ast.Constant(value=None), call)
         for p_ in paths:
@@ -393,7 +397,44 @@ class Enumerator:
         ast.fix_missing_locations(outer)
         return outer
 
+    def _min_assign(self, st):
+        """`if a < x: [log]; x = a`  (x a local name, no else)  ->  `x = min(x, a)`   (and the max twin);
+        logging calls in the body are dropped - they have no effect the rules look at"""
+        test, neg = st.test, False
+        if isinstance(test, ast.UnaryOp) and isinstance(test.op, ast.Not):
+            test, neg = test.operand, True
+        if st.orelse or not isinstance(test, ast.Compare) or len(test.ops) != 1:
+            return None
+        body = [b for b in st.body if not (isinstance(b, ast.Expr) and isinstance(b.value, ast.Call) and isinstance(b.value.func, ast.Attribute)
+                                          and isinstance(b.value.func.value, ast.Name) and b.value.func.value.id in ("logger", "logging"))]
+        if len(body) != 1 or not isinstance(body[0], ast.Assign) or len(body[0].targets) != 1 or not isinstance(body[0].targets[0], ast.Name):
+            return None
+        tgt, val = body[0].targets[0], body[0].value
+        if isinstance(val, ast.Constant) or any(isinstance(x, (ast.Await, ast.Yield)) for x in ast.walk(val)) or any(
+                isinstance(x, ast.Call) and not (isinstance(x.func, ast.Name) and x.func.id in ("len", "int", "min", "max", "abs")) for x in ast.walk(val)):
+            return None
+        l, r, op = test.left, test.comparators[0], test.ops[0]
+        if neg:
+            op = {ast.Lt: ast.GtE, ast.LtE: ast.Gt, ast.Gt: ast.LtE, ast.GtE: ast.Lt}.get(type(op), type(None))()
+        dt, dv = ast.dump(ast.Name(id=tgt.id, ctx=ast.Load())), ast.dump(val)
+        dl, dr = ast.dump(l), ast.dump(r)
+        fn = None
+        if (dl, dr) == (dv, dt):      # val OP tgt
+            fn = "min" if isinstance(op, (ast.Lt, ast.LtE)) else "max" if isinstance(op, (ast.Gt, ast.GtE)) else None
+        elif (dl, dr) == (dt, dv):    # tgt OP val
+            fn = "min" if isinstance(op, (ast.Gt, ast.GtE)) else "max" if isinstance(op, (ast.Lt, ast.LtE)) else None
+        if fn is None:
+            return None
+        new = ast.Assign(targets=[ast.Name(id=tgt.id, ctx=ast.Store())],
+                         value=ast.Call(func=ast.Name(id=fn, ctx=ast.Load()), args=[ast.Name(id=tgt.id, ctx=ast.Load()), val], keywords=[]))
+        ast.copy_location(new, body[0])
+        ast.fix_missing_locations(new)
+        return new
+
     def _if(self, st):
+        m = self._min_assign(st)
+        if m is not None:
+            return self.stmt(m)
         d = self._desugar_boolop(st)
         if d is not None:
             return self._if(d)
@@ -485,6 +526,39 @@ class Enumerator:
             v = self.prog.const_eval(it, self.cls.mod, self.cls)
             if v is not NOCONST and isinstance(v, (list, tuple)) and all(isinstance(x, (int, str, float, bool, type(None))) for x in v):
                 vals = list(v)
+        if vals is None and isinstance(it, (ast.Tuple, ast.List)) and not enum and not st.orelse and 0 < len(it.elts) <= 8 \
+                and not any(isinstance(e, ast.Starred) for e in it.elts) and not any(isinstance(n, (ast.Break, ast.Continue)) for n in ast.walk(st)):
+            # a display of small tuples / expressions written in the loop header
+            reads = {x.id for x in ast.walk(it) if isinstance(x, ast.Name)}
+            written = {x.id for b in st.body for x in ast.walk(b) if isinstance(x, ast.Name) and isinstance(x.ctx, (ast.Store, ast.Del))}
+            written |= {x.id for x in ast.walk(st.target) if isinstance(x, ast.Name)}
+            pure = not any(isinstance(x, (ast.Attribute, ast.Subscript, ast.Call)) for x in ast.walk(it))
+            if not (reads & written) and pure:
+                return ("exprs", list(it.elts)), False
+        if vals is None and isinstance(it, ast.Name) and getattr(self, "fnode", None) is not None and not enum and not st.orelse:
+            # a local bound once to a small display of arbitrary expressions (e.g. pairs of limit and log text): unroll over the element
+            # expressions, provided nothing they read is assigned inside the loop
+            asg = [n for n in ast.walk(self.fnode) if isinstance(n, ast.Assign) and any(isinstance(t, ast.Name) and t.id == it.id for t in n.targets)]
+            other = [n for n in ast.walk(self.fnode) if isinstance(n, (ast.AugAssign, ast.For, ast.NamedExpr, ast.comprehension)) and
+                     any(isinstance(x, ast.Name) and x.id == it.id and isinstance(x.ctx, ast.Store) for x in ast.walk(n.target))]
+            if len(asg) == 1 and not other and isinstance(asg[0].value, (ast.Tuple, ast.List)) and 0 < len(asg[0].value.elts) <= 8 \
+                    and not any(isinstance(e, ast.Starred) for e in asg[0].value.elts) and asg[0].lineno < st.lineno:
+                reads = {x.id for x in ast.walk(asg[0].value) if isinstance(x, ast.Name)}
+                written = set()
+                for b in st.body:
+                    for x in ast.walk(b):
+                        if isinstance(x, ast.Name) and isinstance(x.ctx, (ast.Store, ast.Del)):
+                            written.add(x.id)
+                for x in ast.walk(st.target):
+                    if isinstance(x, ast.Name):
+                        written.add(x.id)
+                attr_writes = any(isinstance(x, (ast.Attribute, ast.Subscript)) and isinstance(x.ctx, (ast.Store, ast.Del)) for b in st.body for x in ast.walk(b))
+                has_calls = any(isinstance(x, ast.Call) and not (isinstance(x.func, ast.Attribute) and isinstance(x.func.value, ast.Name) and x.func.value.id in ("logger", "logging"))
+                                for b in st.body for x in ast.walk(b))
+                has_attr_reads = any(isinstance(x, (ast.Attribute, ast.Subscript)) for x in ast.walk(asg[0].value))
+                if not (reads & written) and not (has_attr_reads and (attr_writes or has_calls)) \
+                        and not any(isinstance(n, (ast.Break, ast.Continue)) for n in ast.walk(st)):
+                    return ("exprs", list(asg[0].value.elts)), False
         if vals is None or not (0 < len(vals) <= 8) or st.orelse:
             return None
         if any(isinstance(n, (ast.Break,)) for n in ast.walk(st)):
@@ -499,9 +573,15 @@ class Enumerator:
         ci = self._const_iter(st)
         if ci is not None:
             vals, enum = ci
+            exprs = isinstance(vals, tuple) and vals and vals[0] == "exprs"
+            if exprs:
+                vals = vals[1]
             stmts = []
             for v in vals:
-                if enum:
+                if exprs:
+                    import copy
+                    val = copy.deepcopy(v)
+                elif enum:
                     val = ast.Tuple(elts=[ast.Constant(value=v[0]), ast.Constant(value=v[1])], ctx=ast.Load())
                 else:
                     val = ast.Constant(value=v)
@@ -767,12 +847,140 @@ def _resolve_ife(run):
             run.evalr.env[k] = G.renorm(G.subst(v, fn))
 
 
+class _DispatchTable(ast.NodeTransformer):
+    """Desugars the dispatch-table idiom inside one function body:
+
+        H = {K1: self.m1, K2: self.m2, ...}     # dict display whose values are bound methods of self
+        h = H.get(E)            (or  h = H[E])
+        if h is None: ...                        ->  if E not in (K1, K2, ...): ...
+        h(a, b)                                  ->  if E == K1: self.m1(a, b) / elif E == K2: self.m2(a, b) / ...
+
+    so that the path enumeration (and the inlining of non-anchor helpers) sees the same calls as in the if/elif spelling.
+    Applied only when H and h are assigned exactly once in the function and E reads nothing that is assigned after the lookup."""
+
+    def __init__(self, fnode):
+        self.tables, self.lookups = {}, {}
+        assigned = {}
+        for n in ast.walk(fnode):
+            if isinstance(n, (ast.Assign, ast.AugAssign, ast.AnnAssign, ast.For, ast.NamedExpr, ast.comprehension, ast.withitem)):
+                tg = n.targets if isinstance(n, ast.Assign) else [getattr(n, "target", None) or getattr(n, "optional_vars", None)]
+                for t in tg:
+                    for x in ast.walk(t) if t is not None else ():
+                        if isinstance(x, ast.Name):
+                            assigned.setdefault(x.id, []).append(n)
+        for n in ast.walk(fnode):
+            if isinstance(n, ast.Assign) and len(n.targets) == 1 and isinstance(n.targets[0], ast.Name) and isinstance(n.value, ast.Dict) \
+                    and n.value.keys and all(k is not None for k in n.value.keys) and len(assigned.get(n.targets[0].id, [])) == 1 \
+                    and all(isinstance(v, ast.Attribute) and isinstance(v.value, ast.Name) and v.value.id == "self" for v in n.value.values):
+                self.tables[n.targets[0].id] = n.value
+        for n in ast.walk(fnode):
+            if isinstance(n, ast.Assign) and len(n.targets) == 1 and isinstance(n.targets[0], ast.Name) and len(assigned.get(n.targets[0].id, [])) == 1:
+                v, tab, key, dflt = n.value, None, None, False
+                if isinstance(v, ast.Call) and isinstance(v.func, ast.Attribute) and v.func.attr == "get" and isinstance(v.func.value, ast.Name) \
+                        and v.func.value.id in self.tables and len(v.args) == 1 and not v.keywords:
+                    tab, key, dflt = v.func.value.id, v.args[0], True
+                elif isinstance(v, ast.Subscript) and isinstance(v.value, ast.Name) and v.value.id in self.tables:
+                    tab, key = v.value.id, v.slice
+                if tab is None:
+                    continue
+                reads = {x.id for x in ast.walk(key) if isinstance(x, ast.Name)}
+                if any(a.lineno > n.lineno for r in reads for a in assigned.get(r, []) if hasattr(a, "lineno")):
+                    continue
+                self.lookups[n.targets[0].id] = (self.tables[tab], key, dflt)
+        self.changed = False
+
+    def _keys_tuple(self, tab):
+        return ast.Tuple(elts=list(tab.keys), ctx=ast.Load())
+
+    def _none_test(self, test):
+        """(name, is_none?) for `h is None`, `h is not None`, `h == None`, `not h`, `h`"""
+        if isinstance(test, ast.Compare) and len(test.ops) == 1 and isinstance(test.left, ast.Name) and test.left.id in self.lookups \
+                and isinstance(test.comparators[0], ast.Constant) and test.comparators[0].value is None:
+            if isinstance(test.ops[0], (ast.Is, ast.Eq)):
+                return test.left.id, True
+            if isinstance(test.ops[0], (ast.IsNot, ast.NotEq)):
+                return test.left.id, False
+        if isinstance(test, ast.UnaryOp) and isinstance(test.op, ast.Not) and isinstance(test.operand, ast.Name) and test.operand.id in self.lookups:
+            return test.operand.id, True
+        if isinstance(test, ast.Name) and test.id in self.lookups:
+            return test.id, False
+        return None
+
+    def visit_If(self, node):
+        self.generic_visit(node)
+        nt = self._none_test(node.test)
+        if nt is not None:
+            tab, key, dflt = self.lookups[nt[0]]
+            if dflt:
+                op = ast.NotIn() if nt[1] else ast.In()
+                node.test = ast.copy_location(ast.Compare(left=key, ops=[op], comparators=[self._keys_tuple(tab)]), node.test)
+                ast.fix_missing_locations(node.test)
+                self.changed = True
+        return node
+
+    def _chain(self, call, wrap, at):
+        tab, key, dflt = self.lookups[call.func.id]
+        chain = None
+        for k, v in reversed(list(zip(tab.keys, tab.values))):
+            c = ast.Call(func=v, args=call.args, keywords=call.keywords)
+            test = ast.Compare(left=key, ops=[ast.Eq()], comparators=[k])
+            chain = ast.If(test=test, body=[wrap(c)], orelse=[chain] if chain is not None else
+                           [ast.Raise(exc=ast.Call(func=ast.Name(id="TypeError", ctx=ast.Load()), args=[], keywords=[]), cause=None)])
+        ast.copy_location(chain, at)
+        for x in ast.walk(chain):
+            if not hasattr(x, "lineno"):
+                ast.copy_location(x, at)
+        ast.fix_missing_locations(chain)
+        self.changed = True
+        return chain
+
+    def visit_Expr(self, node):
+        v = node.value
+        if isinstance(v, ast.Call) and isinstance(v.func, ast.Name) and v.func.id in self.lookups:
+            return self._chain(v, lambda c: ast.Expr(value=c), node)
+        return node
+
+    def visit_Return(self, node):
+        v = node.value
+        if isinstance(v, ast.Call) and isinstance(v.func, ast.Name) and v.func.id in self.lookups:
+            return self._chain(v, lambda c: ast.Return(value=c), node)
+        return node
+
+    def visit_FunctionDef(self, node):
+        return node     # nested functions are not touched
+
+    visit_AsyncFunctionDef = visit_Lambda = visit_FunctionDef
+
+
+_DESUGARED = {}
+
+
+def desugared_body(func):
+    """the function's statement list with the dispatch-table idiom rewritten (cached; the original AST is not modified)"""
+    key = id(func.node)
+    if key not in _DESUGARED:
+        body = func.node.body
+        if any(isinstance(n, ast.Dict) for n in ast.walk(func.node)):
+            import copy
+            t = _DispatchTable(func.node)
+            if t.lookups:
+                cp = copy.deepcopy(func.node)
+                t2 = _DispatchTable(cp)
+                new = [t2.visit(st) for st in cp.body]
+                if t2.changed:
+                    body = new
+        _DESUGARED[key] = (func.node, body)
+    return _DESUGARED[key][1]
+
+
 def runs_of(prog, func, unroll=1, may_raise=None, keep_env=False, body=None, env=None, evalr=None,
             summarize_pad=True, inline=True):
     """All feasible replayed paths of a function (or of a statement list `body` inside it)."""
     en = Enumerator(unroll=unroll, may_raise=may_raise, summarize_pad=summarize_pad, prog=prog, cls=func.cls if func is not None else None,
                     inline=inline)
-    paths = en.block(body if body is not None else func.node.body)
+    if func is not None:
+        en.fnode = ast.Module(body=desugared_body(func), type_ignores=[])
+    paths = en.block(body if body is not None else desugared_body(func))
     out = []
     for p in paths:
         r = replay(prog, func, p, env=env, keep_env=keep_env, evalr=evalr)
